@@ -40,7 +40,20 @@ func TestVerifRace(t *testing.T) {
 		"", "a:\n  x: 1\n", "a:\n  x: 1\nb:\n  y: 2\n  z: 3\nc:\n",
 		"a:\n  nosep\n  x: 1\nb:\n  q: abc\n", "a:\n  x: 1\n  q: abc\nb:\n  y: 1\n", "a:\n  x: 1\nb:\n  y: 2\n  nosep",
 	}
+	// long inputs (beyond any batch a producer might collect: 300 and 1100 records, an error after the 300th), every
+	// tenth iteration
+	for _, n := range []int{300, 1100} {
+		var sb strings.Builder
+		for r := 1; r <= n; r++ {
+			sb.WriteString(fmt.Sprintf("day%04d:\n  food%d: %d\n", r, r, r))
+		}
+		inputs = append(inputs, sb.String())
+		if n == 300 {
+			inputs = append(inputs, sb.String()+"last:\n  nosep\nafter:\n  x: 1\n")
+		}
+	}
 	runs := 0
+	seen := map[string]string{}
 	// one pipeline: producer goroutine + consumer goroutine on a Parser of their own; on every third iteration the
 	// consumer also uses the callback parser on another input between two receives
 	pipe := func(in string, policy, it int) chan string {
@@ -83,11 +96,22 @@ func TestVerifRace(t *testing.T) {
 		for ii, in := range inputs {
 			for policy := 0; policy < 2; policy++ {
 				// two pipelines at the same time (a program reading its book and its log concurrently)
+				in2 := inputs[(ii+1+it)%len(inputs)]
+				if (len(in) > 1000 || len(in2) > 1000) && it%10 != 0 {
+					continue
+				}
 				d1 := pipe(in, policy, it)
-				d2 := pipe(inputs[(ii+1+it)%len(inputs)], policy, it+1)
-				for _, d := range []chan string{d1, d2} {
+				d2 := pipe(in2, policy, it+1)
+				for di, d := range []chan string{d1, d2} {
 					select {
-					case <-d:
+					case got := <-d:
+						// what the consumer saw is the same on every run
+						key := fmt.Sprint(policy, "|", []string{in, in2}[di])
+						if prev, ok := seen[key]; !ok {
+							seen[key] = got
+						} else if prev != got {
+							t.Fatalf("VERIF-RACE-DIFF: consumer policy %d on an input of %d bytes saw %d bytes on one run and %d on another", policy, len([]string{in, in2}[di]), len(prev), len(got))
+						}
 					case <-time.After(60 * time.Second):
 						t.Fatalf("VERIF-RACE-HANG: consumer policy %d on %q did not finish in 60s", policy, in)
 					}
